@@ -98,6 +98,62 @@ CLAIMED = {
         "note": "trusted: SHA-256, clvmr node accessors",
         "technique": _T + "constant recomputation + sibling agreement + who-may-call + provenance",
     },
+    "C02": {
+        "text": "Decides: parse_conditions is only called by process_single_spend and is the only pusher of spends; every "
+                "non-rejecting exit of process_single_spend inserted compute_coin_id(sanitised parent, sanitised puzzle hash, raw "
+                "amount atom) into spent_coins without collision; each entry point creates one ParseState outside its loop and "
+                "routes every spend through process_single_spend; addition_amount grows only after create_coin.insert returned true "
+                "and NewCoin hashes/compares exactly (puzzle_hash, amount); the u128 totals have one write site each (`+= x as u128`), "
+                "reserve_fee uses checked_add; validate_conditions rejects removal<addition and removal-addition<fee; coin-id hash "
+                "input order; the node hashed is the node run (block path) / declared hash is compared (mempool path).",
+        "design_ref": "DESIGN.md 3/C02",
+        "note": "trusted: SHA-256, clvmr, HashSet/HashMap; legacy ROM puzzle hashing is CLVM",
+        "technique": _T + "who-may-call + must-pass-through + effect-table rows + value provenance",
+    },
+    "C03": {
+        "text": "Decides (finite tables): parse-time width / negative / oversized class of all ten lock and birth opcodes equals the "
+                "spec rows; fold operator and holder per kind (max for after-locks, min for before-locks, reject-different for birth) "
+                "by complete per-path effect comparison; the check_time_locks guard table (operator, operands, saturating_add on the "
+                "nowrap branch) equals spec B.6; the monotone pairing fold<->comparison direction, which makes fold-then-compare equal "
+                "to compare-each-and-conjoin for every multiset; impossibility guards are exactly `before <= after` with mirrored "
+                "operands; the six relative/birth kinds and skip-relative feed the ephemeral rule.",
+        "design_ref": "DESIGN.md 3/C03",
+        "note": "trusted: std max/min/saturating_add; legacy nowrap=false mode only checked for shape",
+        "technique": _T + "accepting-path tables + guard-table extraction + order-theoretic pairing",
+    },
+    "C04": {
+        "text": "Decides: cost constants (values + stated relations) and all 256 two-byte cost slots against an exact-rational "
+                "recomputation; per opcode class and COST_CONDITIONS value the pre-charge region charges exactly the class cost, "
+                "unknown opcodes and the per-spend cost likewise; every budget decrement is dominated by a strict `<` guard on the "
+                "same term and mirrored into both condition_cost accumulators, which have no other writers; subtract_cost is strict; "
+                "each entry point subtracts the size cost once before any CLVM run, passes the remaining budget to run_program, "
+                "subtracts each returned cost and reports max_cost - cost_left. Numeric totals (CLVM cost, byte length) are external.",
+        "design_ref": "DESIGN.md 3/C04",
+        "note": "MESSAGE/GENERIC cost rows are frozen from the reviewed tree (no independent offline source)",
+        "technique": _T + "constant recomputation + region path tables + dominance of guards over decrements",
+    },
+    "C05": {
+        "text": "Decides: for each of the 8 AGG_SIG variants the ordered byte pieces pushed to pkm_pairs (message atom, coin "
+                "attributes, domain constant of that opcode) under to_key(pk), pushed iff signatures are validated, equal the recipe "
+                "table; make_aggsig_final_message appends the same pieces per opcode; the unsafe suffix ban covers all seven constants "
+                "and precedes every unsafe push; to_key accepts only checked, non-infinity keys; validate_signature skips only under "
+                "DONT_VALIDATE_SIGNATURE and both verifier branches get the same pairs/signature; the mempool path keys pairings by "
+                "sha256 of the same pk||msg bytes and accepts only a true verdict. BLS soundness is external.",
+        "design_ref": "DESIGN.md 3/C05",
+        "note": "trusted: blst, Allocator::atom, canonical u64_to_bytes (C11)",
+        "technique": _T + "ordered provenance of byte pieces from region paths + sibling agreement + must-pass-through",
+    },
+    "C06": {
+        "text": "Decides: for every opcode, accepting paths of parse_args under STRICT_ARGS_COUNT / NO_UNKNOWN_CONDS are accepting "
+                "paths without the flag (subset of checks, identical result); every branch on the three strictness flags in the spend "
+                "pipeline guards an effect-free region; every effect in the per-condition regions is in a commutative class (sum, "
+                "max, min, set/map insert with rejecting collision, first/idempotent assign, counters) or an enumerated order-only "
+                "vector, and every guard reading accumulator state is one of the enumerated symmetric guards. Equality of two "
+                "concrete runs' numbers is not decided.",
+        "design_ref": "DESIGN.md 3/C06",
+        "note": "clvmr dialect flags in MEMPOOL_MODE are not analysed",
+        "technique": _T + "effect classification over region paths + path-set inclusion per flag",
+    },
 }
 
 _PENDING = "check not built yet in this round (planned, see DESIGN.md section 3); not claimed until its rules run"
